@@ -1,8 +1,8 @@
-\* U1c: life cycle, exhaustively: <= 3 uploads, <= 2 messages / topics / users, <= 2 GC runs.
+\* U1e (thorough tier): life cycle, exhaustively: <= 3 uploads, <= 2 messages / topics / users, any number of GC runs (topics symmetric).
 CONSTANTS
   MaxUp = 3
   MaxMsg = 2
-  Topics = {"t1", "t2"}
+  Topics = {t1, t2}
   Users = {"u1", "u2"}
   MaxGc = 99
   Grace = 1
@@ -25,5 +25,6 @@ CONSTANTS
   DEV_FinishFailLeavesBytes = FALSE
 SPECIFICATION Spec
 VIEW View
+SYMMETRY TopicPerms
 INVARIANTS StateClauses ReqClauses LifeClauses
 CHECK_DEADLOCK FALSE
